@@ -32,6 +32,8 @@ int __real_pthread_cond_timedwait(pthread_cond_t *, pthread_mutex_t *, const str
 int __real_pthread_cond_signal(pthread_cond_t *);
 int __real_pthread_cond_broadcast(pthread_cond_t *);
 int __real_pthread_attr_setaffinity_np(pthread_attr_t *, size_t, const cpu_set_t *);
+int __real_pthread_attr_init(pthread_attr_t *);
+int __real_pthread_attr_setstacksize(pthread_attr_t *, size_t);
 int __real_pthread_setname_np(pthread_t, const char *);
 int __real_clock_gettime(clockid_t, struct timespec *);
 int __real_nanosleep(const struct timespec *, struct timespec *);
@@ -61,6 +63,7 @@ struct Slot { // one per OS thread
     pthread_t os_handle;
     int bound = -1; // sim tid
     bool in_use = false;
+    bool os_pending = false; // its OS thread was created joinable and has been neither joined nor detached yet (keeps the pthread_t unique, as for a real unjoined thread)
     char pad[64];
 };
 
@@ -425,7 +428,7 @@ static void check_budget() {
         G.tail = true;
         G.stats.probes["tail_mode"]++;
     }
-    if (G.tail && (G.steps & 1023) == 0 && G.cpu_cost < 10000000000ull) {
+    if (G.tail && (G.steps & 1023) == 0 && G.cpu_cost < 1000000000000ull) {
         // In the fair tail every step costs more and more virtual time, so that a thread that legitimately polls
         // (e.g. the thread scheduler with a task time that does not fit a positive int64 delay) cannot keep
         // sleepers and timed waits from ever expiring. CPU speed is not something any property depends on.
@@ -558,42 +561,55 @@ static double permille(const Plan &p, const char *k, double dflt) {
 static void (*g_warmup)(void) = nullptr;
 void set_thread_warmup(void (*fn)(void)) { g_warmup = fn; }
 
-void init_process(int pool_threads) {
+// Every simulated thread runs on an OS thread of its own, created when the code under test creates the thread and gone when its
+// function returns: thread-local storage starts from its initial image, exactly as for a real new thread (OS threads used to be
+// pooled and re-used across simulated threads and runs, which let thread-locals of the code under test leak from one simulated
+// thread into a later one). Which thread runs is still decided by the baton alone.
+static std::atomic<uint64_t> g_os_threads{0};
+uint64_t os_threads_created() { return g_os_threads.load(); }
+
+static void *slot_entry(void *a) {
+    Slot *s = (Slot *)a;
+    tl_slot = s;
+    wait_for_baton(s);
+    SimThread *t = &G.th[s->bound];
+    tl_self = t;
+    log_event(PK_THREAD_START, nullptr, t->id);
+    t->fn(t->arg);
+    // thread exit
+    log_event(PK_THREAD_EXIT, nullptr, t->id);
+    t->state = TS_DONE;
+    if (t->joiner >= 0) make_ready(G.th[t->joiner], WR_OTHER);
+    if (t->detached) { s->in_use = false; }
+    SimThread *next = choose_next(false);
+    tl_self = nullptr;
+    G.stats.switches++;
+    hand_to(next); // nothing of the simulator is touched after this line
+    return nullptr;
+}
+
+static void start_os_thread(Slot *s) {
+    pthread_attr_t at; // the attribute calls are interposed too (fault injection): use the real ones
+    __real_pthread_attr_init(&at);
+    __real_pthread_attr_setstacksize(&at, 1 << 20);
+    int rc = 0;
+    for (int attempt = 0; attempt < 200; attempt++) { // earlier threads may still be on their way out
+        rc = __real_pthread_create(&s->os_handle, &at, slot_entry, s);
+        if (rc != EAGAIN) break;
+        usleep(1000);
+    }
+    pthread_attr_destroy(&at);
+    if (rc) { fprintf(stderr, "dsim: cannot create OS thread: %d\n", rc); _exit(2); }
+    s->os_pending = true;
+    g_os_threads++;
+}
+
+void init_process(int max_threads) {
     if (g_warmup) g_warmup();
-    g_nslots = pool_threads + 1;
+    g_nslots = max_threads + 1;
     g_slots = new Slot[g_nslots];
     g_slots[0].os_handle = pthread_self();
     g_slots[0].in_use = true;
-    for (int i = 1; i < g_nslots; i++) {
-        Slot *s = &g_slots[i];
-        pthread_attr_t at;
-        pthread_attr_init(&at);
-        pthread_attr_setstacksize(&at, 1 << 20);
-        int rc = __real_pthread_create(&s->os_handle, &at, [](void *a) -> void * {
-            Slot *s = (Slot *)a;
-            tl_slot = s;
-            if (g_warmup) g_warmup();
-            for (;;) {
-                wait_for_baton(s);
-                SimThread *t = &G.th[s->bound];
-                tl_self = t;
-                log_event(PK_THREAD_START, nullptr, t->id);
-                t->fn(t->arg);
-                // thread exit
-                log_event(PK_THREAD_EXIT, nullptr, t->id);
-                t->state = TS_DONE;
-                if (t->joiner >= 0) make_ready(G.th[t->joiner], WR_OTHER);
-                if (t->detached) { s->in_use = false; }
-                SimThread *next = choose_next(false);
-                tl_self = nullptr;
-                G.stats.switches++;
-                hand_to(next);
-            }
-            return nullptr;
-        }, s);
-        pthread_attr_destroy(&at);
-        if (rc) { fprintf(stderr, "dsim: cannot create pool thread: %d\n", rc); _exit(2); }
-    }
 }
 
 void begin(const Plan &plan) {
@@ -601,7 +617,10 @@ void begin(const Plan &plan) {
     G.run_active = false;
     G.plan = plan;
     for (int i = 0; i < MAX_THREADS; i++) G.th[i] = SimThread();
-    for (int i = 1; i < g_nslots; i++) { g_slots[i].in_use = false; g_slots[i].bound = -1; }
+    for (int i = 1; i < g_nslots; i++) {
+        if (g_slots[i].os_pending) { __real_pthread_join(g_slots[i].os_handle, nullptr); g_slots[i].os_pending = false; } // never joined by the previous run
+        g_slots[i].in_use = false; g_slots[i].bound = -1;
+    }
     G.nthreads = 1;
     G.mutexes.clear(); G.conds.clear(); G.objs.clear(); G.cond_order.clear();
     G.seq = 0; G.ev_hash = 0; G.ring.clear(); G.ring_pos = 0; G.full.clear();
@@ -884,7 +903,7 @@ int thread_create(pthread_t *out, void *(*fn)(void *), void *arg) {
     if (G.nthreads >= MAX_THREADS) violation("sim-limit", "more than %d simulated threads", MAX_THREADS);
     Slot *s = nullptr;
     for (int i = 1; i < g_nslots; i++) if (!g_slots[i].in_use) { s = &g_slots[i]; break; }
-    if (!s) violation("sim-limit", "thread pool exhausted (%d OS threads)", g_nslots - 1);
+    if (!s) violation("sim-limit", "more than %d simulated threads alive at once", g_nslots - 1);
     SimThread &t = G.th[G.nthreads];
     t = SimThread();
     t.id = G.nthreads++;
@@ -895,6 +914,7 @@ int thread_create(pthread_t *out, void *(*fn)(void *), void *arg) {
     s->in_use = true;
     s->bound = t.id;
     s->go.store(0);
+    start_os_thread(s);
     *out = s->os_handle;
     log_event(PK_THREAD_CREATE, nullptr, t.id);
     return 0;
@@ -916,6 +936,7 @@ int thread_join(pthread_t h) {
     t->joiner = me->id;
     while (t->state != TS_DONE) block_self(W_JOIN, (const void *)(intptr_t)(t->id + 1), false, 0, 0);
     t->joined = true;
+    if (t->slot->os_pending) { __real_pthread_join(t->slot->os_handle, nullptr); t->slot->os_pending = false; } // it is past its last simulator access
     t->slot->in_use = false;
     log_event(PK_THREAD_JOIN, nullptr, t->id);
     return 0;
@@ -927,6 +948,7 @@ int thread_detach(pthread_t h) {
     if (!t) return ESRCH;
     if (t->detached || t->joiner >= 0) return EINVAL;
     t->detached = true;
+    if (t->slot->os_pending) { __real_pthread_detach(t->slot->os_handle); t->slot->os_pending = false; }
     if (t->state == TS_DONE) t->slot->in_use = false;
     log_event(PK_THREAD_DETACH, nullptr, t->id);
     return 0;
